@@ -29,11 +29,16 @@ class Ctx:
         self.normalisation = {}
         if not os.environ.get("SA_NO_NORMALIZE"):
             # E9: dissolve helpers that are not part of the pinned tree into their callers (sa/normalize.py)
-            from .normalize import normalize_program
+            from .normalize import normalize_program, recover_renames
             from .types import World
+            rtrees, renames = recover_renames(self.prog)
+            if rtrees is not None:
+                self.prog = Program(self.root, wide=(tier == "thorough"), trees=rtrees)
             trees, self.normalisation = normalize_program(self.prog, World(self.prog))
             if self.normalisation.get("dissolved"):
                 self.prog = Program(self.root, wide=(tier == "thorough"), trees=trees)
+            if renames:
+                self.normalisation["renames_recovered"] = renames
         self._world = None
         self._hier = None
         self._tables = None
@@ -70,6 +75,7 @@ def run_property(pid: str, tier: str, only=None, root=None, selftest=True) -> Re
     ctx = Ctx(tier, root)
     mod = importlib.import_module(f"sa.props.{pid.lower()}")
     rep = Report(pid)
+    rep.normalisation = ctx.normalisation
     rep.only = only
     mod.run(ctx, rep)
     if not rep.findings:
@@ -92,6 +98,7 @@ def write_evidence(rep: Report, tier: str, wall: float, violations: int, known_m
         "samples": rep.samples[:40] or ["(no instance sampled)"],
         "obligations": rep.obligations,
         "discharged": rep.discharged,
+        "normalisation": getattr(rep, "normalisation", None) or {"dissolved": {}, "note": "no helper outside the baseline name table in this tree"},
         "checker_cmd": f"/venv/bin/python -m sa.check {rep.prop} --tier {tier}",
         "trusted_base": ["CPython ast module (parser)", "the /verif/sa analysis code",
                          "table of partial operations and assumed-total externals (DESIGN.md 2.4)"],
